@@ -771,7 +771,6 @@ fn from_inexact_bitwise_digits_le(v: &[u8], bits: u8) -> /*+*/(res: /*-*/BigUint
 } // mod convert
 
 /// big-endian value of digits in base 2^bits: the reverse of the little-endian digits
-pub open spec fn rev8(s: Seq<u8>) -> Seq<u8> { Seq::new(s.len(), |i: int| s[s.len() - 1 - i]) }
 
 impl BigUint {
 //@ extract src/biguint.rs :: impl BigUint :: fn to_bytes_le props=C09,C04
